@@ -742,11 +742,25 @@ func shrinkCandidates(t *T) []*T {
 	}
 	for _, p := range paths {
 		n := at(t, p)
+		if len(out) > 400 {
+			break
+		}
 		switch n.Tag {
 		case "()", "list", "obj", "ss", "doc":
 			min := 0
 			if n.Tag == "ss" || n.Tag == "doc" {
 				min = 1
+			}
+			if len(n.Kids) > 16 {
+				// long lists shrink by halves
+				h := len(n.Kids) / 2
+				for _, keep := range [][2]int{{h, len(n.Kids)}, {0, h}} {
+					c := t.clone()
+					m := at(c, p)
+					m.Kids = append([]*T{}, m.Kids[keep[0]:keep[1]]...)
+					out = append(out, c)
+				}
+				continue
 			}
 			for i := range n.Kids {
 				if len(n.Kids)-1 < min {
@@ -774,4 +788,161 @@ func shrinkCandidates(t *T) []*T {
 		}
 	}
 	return out
+}
+
+// ---- large trees ------------------------------------------------------------------------------------
+
+var largeKinds = []string{"wide-set", "many-sets", "many-operations", "many-fragments-and-spreads", "inline-fragments",
+	"arguments", "list-items", "object-fields", "variable-definitions", "directives", "aliased-batch", "directive-arguments"}
+
+func fieldT(alias, name string, args, dirs, ss *T) *T {
+	var a *T
+	if alias != "" {
+		a = leaf("n", alias)
+	}
+	if args == nil {
+		args = node("()")
+	}
+	if dirs == nil {
+		dirs = node("()")
+	}
+	return node("field", a, leaf("n", name), args, dirs, ss)
+}
+
+func opT(sels ...*T) *T { return node("op", nil, nil, node("()"), node("()"), node("ss", sels...)) }
+
+// nestTail: a selection nested d levels deep (alternating plain fields and inline fragments).
+func nestTail(d int, r *hx.Rand) *T {
+	inner := fieldT("", "leaf", nil, nil, nil)
+	for i := 0; i < d; i++ {
+		if r.Chance(1, 4) {
+			inner = node("inline", nil, node("()"), node("ss", inner))
+		} else {
+			inner = fieldT("", "t", nil, nil, node("ss", inner))
+		}
+	}
+	return inner
+}
+
+// largeTree: about n siblings of one kind (over the whole document), optionally followed by a
+// selection nested tail levels deep. All trees are in the grammar; bracket nesting is tail + O(1).
+func largeTree(kind string, n, tail int, r *hx.Rand) *T {
+	var tailSel []*T
+	if tail > 0 {
+		tailSel = []*T{nestTail(tail, r)}
+	}
+	names := []string{"a", "b", "user", "on", "fragment", "query", "true", "null", "_x9"}
+	nm := func(i int) string { return names[i%len(names)] }
+	intv := func(i int) *T { return leaf("int", fmt.Sprint(i%97)) }
+	switch kind {
+	case "wide-set":
+		var sels []*T
+		for i := 0; i < n; i++ {
+			switch i % 5 {
+			case 0:
+				sels = append(sels, fieldT(fmt.Sprintf("a%d", i), nm(i), nil, nil, nil))
+			case 1:
+				sels = append(sels, fieldT("", nm(i), node("()", node("arg", leaf("n", "x"), intv(i))), nil, nil))
+			default:
+				sels = append(sels, fieldT("", nm(i), nil, nil, nil))
+			}
+		}
+		return node("doc", opT(append(sels, tailSel...)...))
+	case "many-sets":
+		var sels []*T
+		for i := 0; i < n/3; i++ {
+			sels = append(sels, fieldT("", nm(i), nil, nil, node("ss", fieldT("", "x", nil, nil, nil), fieldT("", "y", nil, nil, nil))))
+		}
+		return node("doc", opT(append(sels, tailSel...)...))
+	case "aliased-batch":
+		var sels []*T
+		for i := 0; i < n/6; i++ {
+			var sub []*T
+			for j := 0; j < 5; j++ {
+				sub = append(sub, fieldT("", nm(i+j), nil, nil, nil))
+			}
+			sels = append(sels, fieldT(fmt.Sprintf("u%d", i), "user", node("()", node("arg", leaf("n", "id"), intv(i))), nil, node("ss", sub...)))
+		}
+		return node("doc", opT(append(sels, tailSel...)...))
+	case "many-operations":
+		d := node("doc")
+		for i := 0; i < n/3; i++ {
+			d.Kids = append(d.Kids, node("op", leaf("optype", []string{"query", "mutation", "subscription"}[i%3]), leaf("n", fmt.Sprintf("Q%d", i)), node("()"), node("()"),
+				node("ss", fieldT("", "a", nil, nil, nil), fieldT("", "b", nil, nil, nil), fieldT("", "c", nil, nil, nil))))
+		}
+		d.Kids = append(d.Kids, opT(append([]*T{fieldT("", "last", nil, nil, nil)}, tailSel...)...))
+		return d
+	case "many-fragments-and-spreads":
+		d := node("doc")
+		var spreads []*T
+		for i := 0; i < n/3; i++ {
+			spreads = append(spreads, node("spread", leaf("n", fmt.Sprintf("F%d", i)), node("()")))
+			d.Kids = append(d.Kids, node("frag", leaf("n", fmt.Sprintf("F%d", i)), node("named", leaf("n", "T")), node("()"), node("ss", fieldT("", "a", nil, nil, nil), fieldT("", "b", nil, nil, nil))))
+		}
+		d.Kids = append(d.Kids, opT(append(spreads, tailSel...)...))
+		return d
+	case "inline-fragments":
+		var sels []*T
+		for i := 0; i < n/2; i++ {
+			var tc *T
+			if i%2 == 0 {
+				tc = node("named", leaf("n", "T"))
+			}
+			sels = append(sels, node("inline", tc, node("()"), node("ss", fieldT("", nm(i), nil, nil, nil))))
+		}
+		return node("doc", opT(append(sels, tailSel...)...))
+	case "arguments":
+		args := node("()")
+		for i := 0; i < n; i++ {
+			args.Kids = append(args.Kids, node("arg", leaf("n", fmt.Sprintf("a%d", i)), intv(i)))
+		}
+		return node("doc", opT(append([]*T{fieldT("", "f", args, nil, nil)}, tailSel...)...))
+	case "list-items":
+		l := node("list")
+		for i := 0; i < n; i++ {
+			switch i % 6 {
+			case 0:
+				l.Kids = append(l.Kids, leaf("str", "s"))
+			case 1:
+				l.Kids = append(l.Kids, node("var", leaf("n", "v")))
+			case 2:
+				l.Kids = append(l.Kids, node("list", intv(i)))
+			case 3:
+				l.Kids = append(l.Kids, node("obj", node("of", leaf("n", "k"), leaf("enum", "E"))))
+			default:
+				l.Kids = append(l.Kids, intv(i))
+			}
+		}
+		return node("doc", opT(append([]*T{fieldT("", "f", node("()", node("arg", leaf("n", "l"), l)), nil, nil)}, tailSel...)...))
+	case "object-fields":
+		o := node("obj")
+		for i := 0; i < n; i++ {
+			o.Kids = append(o.Kids, node("of", leaf("n", fmt.Sprintf("k%d", i)), intv(i)))
+		}
+		return node("doc", opT(append([]*T{fieldT("", "f", node("()", node("arg", leaf("n", "o"), o)), nil, nil)}, tailSel...)...))
+	case "variable-definitions":
+		vds := node("()")
+		for i := 0; i < n/2; i++ {
+			var dv *T
+			ty := node("named", leaf("n", "Int"))
+			if i%3 == 0 {
+				dv = node("list", intv(i))
+				ty = node("nonnull", node("listT", node("nonnull", node("named", leaf("n", "Int")))))
+			}
+			vds.Kids = append(vds.Kids, node("vardef", node("var", leaf("n", fmt.Sprintf("v%d", i))), ty, dv))
+		}
+		return node("doc", node("op", leaf("optype", "query"), nil, vds, node("()"), node("ss", append([]*T{fieldT("", "f", nil, nil, nil)}, tailSel...)...)))
+	case "directives":
+		ds := node("()")
+		for i := 0; i < n/2; i++ {
+			ds.Kids = append(ds.Kids, node("dir", leaf("n", "d"), node("()", node("arg", leaf("n", "a"), intv(i)))))
+		}
+		return node("doc", opT(append([]*T{fieldT("", "f", nil, ds, nil)}, tailSel...)...))
+	default: // directive-arguments
+		args := node("()")
+		for i := 0; i < n; i++ {
+			args.Kids = append(args.Kids, node("arg", leaf("n", fmt.Sprintf("a%d", i)), node("list", intv(i))))
+		}
+		return node("doc", opT(append([]*T{fieldT("", "f", nil, node("()", node("dir", leaf("n", "d"), args)), nil)}, tailSel...)...))
+	}
 }
